@@ -1,7 +1,7 @@
 """C06 - Linear / categorical weight constraints (P3 P4 A4 X1 W1 W3 W4 O2)."""
 import ast
 
-from ..model import (AnalysisError, FunctionInfo, expand_aug, dotted, norm_text,
+from ..model import (AnalysisError, FunctionInfo, expand_aug, orelse_view, dotted, norm_text,
                      names_read, const_value, is_none, call_args)
 from ..cfg import CFG, structural_guards
 from ..rules import roles
@@ -193,12 +193,14 @@ def _partial_order(prog, res):
               'clipped against them' % (word, op, order, mp, eop, eord, emap))
     # full step replaces, partial step blends with (1 - step)
     blend = False
+    oe = orelse_view(fn.node)
     for st in ast.walk(fn.node):
       if isinstance(st, ast.If) and isinstance(st.test, ast.Compare) and \
           dotted(st.test.left) == 'step' and const_value(
               st.test.comparators[0]) == 1:
         full = [a for a in st.body if isinstance(a, ast.Assign)]
-        part = [a for a in st.orelse if isinstance(a, ast.Assign)]
+        # the else arm, also when it is written after a guard that leaves
+        part = [a for a in oe(st) if isinstance(a, ast.Assign)]
         if full and part:
           t = norm_text(part[0].value).replace(' ', '')
           blend = ('step*' in t and '(1-step)*' in t)
